@@ -1060,10 +1060,24 @@ type deferred struct {
 	fn   Value
 }
 
+// Defer: only defer statements in the entry block (executed exactly once on every path, before
+// anything else can return) are modelled: they run, last first, at every rundefers. recover() is not
+// modelled (a deferred closure that calls it degrades to UNMODELLED).
 func (x *Exec) deferCall(st *State, i *ssa.Defer) {
-	panic(fatalf("defer in %s (not modelled)", i.Parent()))
+	if i.Block() != i.Parent().Blocks[0] {
+		panic(fatalf("conditional defer in %s (not modelled)", i.Parent()))
+	}
+	if x.deferStack == nil {
+		x.deferStack = map[*ssa.Function][]*ssa.Defer{}
+	}
+	x.deferStack[i.Parent()] = append(x.deferStack[i.Parent()], i)
 }
 
 func (x *Exec) runDefers(st *State, i *ssa.RunDefers) {
-	// functions under contract contain no defer (checked in deferCall)
+	ds := x.deferStack[i.Parent()]
+	for k := len(ds) - 1; k >= 0; k-- {
+		d := ds[k]
+		res := x.doCall(st, &d.Call, d, d.Pos())
+		x.ghostAfterCall(st, &d.Call, d.Parent(), d.Pos(), res)
+	}
 }
